@@ -476,18 +476,66 @@ class _Notes(list):
             super().append(x)
 
 
+def tolerance_facts(src, cls):
+    """every call root_scalar(...) / root(...) inside class `cls`: which expression is handed
+    over as xtol and as rtol -> list of (line, kind, xtol_src, rtol_src)"""
+    tree = ast.parse(src)
+    node = [n for n in tree.body if isinstance(n, ast.ClassDef) and n.name == cls]
+    if not node:
+        raise TranslateError("class %s not found" % cls)
+
+    def classify(e):
+        if e is None:
+            return "TNone"
+        if isinstance(e, ast.Attribute) and isinstance(e.value, ast.Name) and \
+                e.value.id == "self" and e.attr in ("atol", "rtol"):
+            return "TAtol" if e.attr == "atol" else "TRtol"
+        return "TOther"
+    out = []
+    for c in ast.walk(node[0]):
+        if not isinstance(c, ast.Call):
+            continue
+        nm = c.func.id if isinstance(c.func, ast.Name) else (
+            c.func.attr if isinstance(c.func, ast.Attribute) else None)
+        if nm not in ("root_scalar", "root", "brentq"):
+            continue
+        kw = {k.arg: k.value for k in c.keywords if k.arg}
+        if nm == "root":
+            opt = kw.get("options")
+            x = None
+            if isinstance(opt, ast.Dict):
+                for k, v in zip(opt.keys, opt.values):
+                    if isinstance(k, ast.Constant) and k.value == "xtol":
+                        x = v
+            out.append((c.lineno, "RootHybr", classify(x), classify(kw.get("tol"))))
+        else:
+            out.append((c.lineno, "RootScalar", classify(kw.get("xtol")),
+                        classify(kw.get("rtol"))))
+    return sorted(out)
+
+
 def generate(hydro_src, template_src, helpers_src):
     """-> (coq text, spans, notes)"""
     notes = _Notes()
     trh, dh = gen_hydrodynamics(hydro_src, helpers_src, notes)
     trt, dt = gen_template(template_src, helpers_src, notes)
-    out = [pyrx.COQ_PRELUDE,
+    facts = [(l, k, x, r, "hydrodynamics.py") for l, k, x, r in
+             tolerance_facts(hydro_src, "Hydrodynamics")] + \
+            [(l, k, x, r, "hydrodynamicsTemplateModel.py") for l, k, x, r in
+             tolerance_facts(template_src, "HydrodynamicsTemplateModel")]
+    if not facts:
+        raise TranslateError("no root finder calls found")
+    facts_coq = "(* tolerance keywords of every root_scalar / root call, by source line *)\n" \
+        "Definition tol_facts : list tolfact :=\n  (" + "\n   :: ".join(
+            "mk_tolfact %d %s %s %s (* %s *)" % f for f in facts) + "\n   :: nil)%list."
+    out = [pyrx.COQ_PRELUDE + "From Coq Require Import List.\n"
+           "From WG Require Import Lib.HydroMatch.\n",
            "(* generated from src/WallGo/hydrodynamics.py, helpers.py, "
            "hydrodynamicsTemplateModel.py *)",
            "(* cuts made by the solver-slicing rule:\n" +
            "\n".join("   " + n.replace("*)", "* )") for n in notes) + " *)",
            trh.header()] + dh + \
-          ["(* ---- HydrodynamicsTemplateModel ---- *)", trt.header()] + dt
+          ["(* ---- HydrodynamicsTemplateModel ---- *)", trt.header()] + dt + [facts_coq]
     spans = {"hydrodynamics.py": trh.spans, "hydrodynamicsTemplateModel.py": trt.spans}
     return "\n".join(out) + "\n", spans, notes, (trh, trt)
 
